@@ -15,6 +15,6 @@ for c in m['checks']:
     c['level_claimed']['text'] = 'Decides structural necessary conditions of {} from /repo/src on every run (nothing executed), one obligation each: {}. '.format(pid, '; '.join(obs)) + rest
     c['level_claimed']['design_ref'] = 'DESIGN.md section 4 ({}), section 10 and Appendix C'.format(pid)
 m['notes'] = ("All 20 properties are claimed at level 'other' for their structural clauses only; the undecided behavioural clauses are listed per property in DESIGN.md section 8 and in each "
-              "level_claimed.text. Genuine defects of the pinned tree found by the checks were repaired by 'fix:' commits in /repo and are recorded as 'fixed:' lines in KNOWN_FINDINGS.txt; no known finding is open.")
+              "level_claimed.text. Genuine defects of the pinned tree found by the checks were repaired by 'fix:' commits in /repo and are recorded as 'fixed:' lines in KNOWN_FINDINGS.txt; known findings still open are its 'known:' lines (printed as KNOWN-FINDING by the checks).")
 json.dump(m, open(mp, 'w'), indent=1)
 print('updated', len(m['checks']), 'checks')
